@@ -1,7 +1,7 @@
 (* Entry points of the extracted model: [run cmd arg]. *)
 From Coq Require Import NArith List Bool.
 From PV Require Import Base.Sx Model.Forest Model.Table Model.LRDriver Model.Scan Model.Parser
-  Validators.TableStruct Extract.Codec.
+  Validators.TableStruct Extract.Codec Extract.RunC20.
 Import ListNotations.
 Local Open Scope N_scope.
 
@@ -37,5 +37,8 @@ Definition run (cmd : N) (arg : sx) : sx :=
   | 3 => run_table_struct arg
   | 4 => run_lr_parse arg
   | 5 => run_tree_ok arg
+  | 200 => run_c20_build arg
+  | 201 => run_c20_class arg
+  | 202 => run_c20_spec arg
   | _ => L [A 999999]
   end.
